@@ -13,8 +13,8 @@ def hkCfg : Cfg :=
     kexGroups := Gen.kexToDhgroupKeys }
 
 def jparsed (blob : Option Bytes) (p : Parsed) : J :=
-  .obj ([("type", .str p.keyType), ("nLen", .nat p.nLen), ("size", .nat (adjustKeySize p.nLen)), ("caType", .str p.caType),
-         ("caNLen", .nat p.caNLen), ("caSize", .nat (adjustKeySize p.caNLen))] ++
+  .obj ([("type", .str p.keyType), ("nLen", .nat p.nLen), ("nBits", .nat p.nBits), ("size", .nat p.size), ("caType", .str p.caType),
+         ("caNLen", .nat p.caNLen), ("caNBits", .nat p.caNBits), ("caSize", .nat p.caSize)] ++
         (match blob with | some b => [("blob", J.ofBytes b)] | none => []))
 
 /-- outcome map token: `name=c | name=x | name=n | name=r<hex>` joined by `;` (`_` = empty) -/
@@ -94,7 +94,6 @@ def hostKeyOp (op : String) (args : List String) : Option J :=
     let a ← decBytes a; let b ← decBytes b
     pure (jok (.arr [.str (sha256Text a), .str (md5Text b)]))
   | "hk.adjust", [n] => do let n ← decNat n; pure (jok (.arr [.nat (adjustKeySize n)]))
-  | "hk.shownbits", [k] => do let k ← decNat k; pure (jok (.nat (Spec.shownBits k)))
   | "hk.enc.rsa", [e, n] => do let e ← hexNat e; let n ← hexNat n; pure (jok (J.ofBytes (Spec.rsaBlob e n)))
   | "hk.enc.ed25519", [pk] => do let pk ← decBytes pk; pure (jok (J.ofBytes (Spec.ed25519Blob pk)))
   | "hk.enc.ed448", [pk] => do let pk ← decBytes pk; pure (jok (J.ofBytes (Spec.ed448Blob pk)))
